@@ -193,13 +193,17 @@ def plant(variants, defs, cls, rnd, shell):
         two = rnd.choice([("seq", [L("p"), L("q")]), ("seq", [("alt", [L("q"), L("r")]), L("p"), L("q")]), ("seq", [("opt", L("o")), L("p"), L("q")]),
                           ("seq", [L("p"), ("seq", [L("q"), L("r")])])])
         depth = rnd.choice([0, 1, 1, 2, 3])
+        if rnd.random() < 0.3:
+            # the left neighbour is itself a multi-element item whose first and last elements differ (only behind a definition)
+            two = ("seq", [("sub", [L("key="), R("PATH"), L(",")]), L("more")])
+            depth = max(depth, 1)
         e = chain(flatten(two), depth, fresh, defs, rnd) if depth else flatten(two)
         site["inner_chain"] = depth
         word = ("sub", [L(rnd.choice(["--w=", "-w", "w:"])), e if e[0] == "ref" else ("alt", [e, L("zz")])])
         put(word)
     elif cls == "unbounded":
         ph = R(rnd.choice(["UNDEF", "_"]))
-        shape = rnd.choice(["ph_lit", "ph_alt", "altph_lit", "ph_opt", "def_ph_lit", "ph_ph"])
+        shape = rnd.choice(["ph_lit", "ph_alt", "altph_lit", "altph_lit_rev", "alt3ph_lit", "ph_opt", "def_ph_lit", "def_altph_lit", "ph_ph"])
         site["shape"] = shape
         if shape == "ph_lit":
             word = ("sub", [L("--u="), ph, L(",x")])
@@ -207,6 +211,14 @@ def plant(variants, defs, cls, rnd, shell):
             word = ("sub", [L("--u="), ph, ("alt", [L(":a"), L(":b")])])
         elif shape == "altph_lit":
             word = ("sub", [("alt", [ph, L("k")]), L("=v")])
+        elif shape == "altph_lit_rev":
+            word = ("sub", [L("--t="), ("alt", [L("none"), ph]), L("ms")])
+        elif shape == "alt3ph_lit":
+            word = ("sub", [("alt", [L("k"), L("kk"), ph]), L("=v")])
+        elif shape == "def_altph_lit":
+            defs.append(("NUM", "", ph))
+            defs.append(("DUR", "", ("sub", [("alt", [L("none"), R("NUM")]), L("ms")])))
+            word = ("sub", [L("--timeout="), R("DUR")])
         elif shape == "ph_opt":
             word = ("sub", [L("-u"), ph, ("opt", L("!"))])
         elif shape == "def_ph_lit":
